@@ -108,8 +108,8 @@ def snap_diff(a, b):
         return "values changed"
     if a["backend"] != b["backend"]:
         return "backend changed"
-    if a["flags"] != b["flags"]:
-        return "memory layout/flags changed %s -> %s" % (a["flags"], b["flags"])
+    # memory layout / writeable flag of the argument's buffer are NOT compared: the statement protects values,
+    # coordinates and attributes (viewshed rebinds raster.data to an equal-valued float64 copy — allowed)
     if a["dims"] != b["dims"] or a["name"] != b["name"]:
         return "dims/name changed"
     if set(a["coords"]) != set(b["coords"]):
